@@ -404,6 +404,7 @@ func planKind(src core.FlatRowSource) string {
 }
 
 func runPlanCase(e *Env, c *jPlanCase) error {
+	e.Running(c)
 	dir := tempDir()
 	defer rmDir(dir)
 	t := &c.Table
